@@ -147,6 +147,20 @@ impl Prop for C14 {
                 },
             ));
         }
+        f.push(Family::new(
+            "zoned-time-as-unix",
+            Mode::Full,
+            "'<time> <zone> as unix' for times [0:15, 1:00, 10:30, 18:45, 23:30] x explicit zones [EST, PST, CET, JST, GMT+3, GMT+5:30, GMT-3:30] under default zones UTC, CET, EST, GMT+5:30, directly and through a variable: the seconds to that wall time in that zone on the clock's date (the instant may lie on the neighbouring UTC day)",
+            move |ch| {
+                let (tzset, _, _) = ch.pick(&zones()).clone();
+                let (tt, wall) = *ch.pick(&[("0:15", 900i64), ("1:00", 3600), ("10:30", 37800), ("18:45", 67500), ("23:30", 84600)]);
+                let zs: Vec<(&str, i32)> = vec![("EST", *spec().zones.get("EST").unwrap_or(&0)), ("PST", *spec().zones.get("PST").unwrap_or(&0)), ("CET", *spec().zones.get("CET").unwrap_or(&0)), ("JST", *spec().zones.get("JST").unwrap_or(&0)), ("GMT+3", 180), ("GMT+5:30", 330), ("GMT-3:30", -210)];
+                let (z, off) = *ch.pick(&zs);
+                let want = cal::days_from_civil(CLOCK_DAY.0, CLOCK_DAY.1, CLOCK_DAY.2) * 86400 + wall - off as i64 * 60;
+                let text = if ch.flag() { format!("{} {} as unix", tt, z) } else { format!("t = {} {}\nt as unix", tt, z) };
+                Some(LineCase::new(text, Expect::ValueOut(Val::Number(want as f64, Base::Raw), want.to_string(), 0.0), "zoned-time-as-unix").with_cfg(cfg_tz(tzset)))
+            },
+        ));
         {
             let ts: Vec<i64> = vec![0, 86399, -86400, 1_000_000_000, 2_147_483_648, 951_782_400, 253_402_300_799];
             f.push(Family::new(
